@@ -173,7 +173,17 @@ Theorem C09_delete_exact :
     (forall r n, In (r, n) (idx st) -> ~ Gone succ subject manifest st x n -> In (r, n) (idx st')) /\
     (forall t n, In (RTag t, n) (idx st') <-> In (RTag t, n) (idx st) /\ n <> x) /\
     (forall r, ~ In (r, x) (idx st')) /\
-    strays st' = strays st /\ autogc st' = autogc st.
+    strays st' = strays st /\ autogc st' = autogc st /\
+    (* exactly which by-digest references are new (when they name their own content, as in every
+       reachable state): those of the surviving manifests of the graph that had predecessors,
+       lost all of them to the cascade and had no by-digest reference *)
+    ((forall d n, In (RDig d, n) (idx st) -> d = n) ->
+     forall d, ~ In (RDig d, d) (idx st) ->
+       (In (RDig d, d) (idx st') <->
+        manifest d = true /\ In d (gnodes st) /\ ~ Gone succ subject manifest st x d /\
+        (exists p, In p (gnodes st) /\ In d (succ p)) /\
+        (forall p, In p (gnodes st) -> In d (succ p) -> Gone succ subject manifest st x p) /\
+        (forall m, ~ In (RDig d, m) (idx st)))).
 Proof. exact delete_exact_final. Qed.
 Print Assumptions C09_delete_exact.
 
